@@ -59,11 +59,11 @@ func RunChild(scn int, sc Scenario, out string) error {
 	}
 	defer f.Close()
 	var mu sync.Mutex
-	again := false // second session of the same stub: events are prefixed
+	phase := "" // "other": another plugin registers with the same state; "again": second session of the first stub
 	ev := func(name string, kv ...any) {
 		mu.Lock()
-		if again && name != "End" && name != "again.handler" {
-			name = "again." + name
+		if phase != "" && name != "End" && !strings.HasPrefix(name, phase+".") {
+			name = phase + "." + name
 		}
 		mu.Unlock()
 		e := rec.Event{"ev": name, "scn": scn}
@@ -161,11 +161,14 @@ func RunChild(scn int, sc Scenario, out string) error {
 				}
 			}
 			mu.Lock()
-			second := again
+			ph := phase
 			mu.Unlock()
-			if second {
+			switch ph {
+			case "again":
 				ev("again.handler", "pods", gp, "ctrs", gc)
-			} else {
+			case "other":
+				ev("other.handler", "pods", gp, "ctrs", gc, "intact", intact)
+			default:
 				ev("handler", "pods", gp, "ctrs", gc, "intact", intact)
 			}
 			return []*api.ContainerUpdate{{ContainerId: "su-1"}, {ContainerId: "su-2"}}, nil
@@ -196,11 +199,44 @@ func RunChild(scn int, sc Scenario, out string) error {
 	case <-time.After(3 * time.Second):
 		se = "stub start did not return"
 	}
+	if !hung && se == "" {
+		// another plugin registers while the first is active: it gets the same, complete state
+		mu.Lock()
+		phase = "other"
+		mu.Unlock()
+		for len(finished) > 0 {
+			<-finished
+		}
+		q := &rig.Plugin{Name: "syncq", Idx: "20", H: h}
+		if sq, err := stub.New(q, stub.WithPluginName("syncq"), stub.WithPluginIdx("20"), stub.WithSocketPath(r.Socket),
+			stub.WithOnClose(func() {})); err == nil {
+			q.Stub = sq
+			qerr := make(chan error, 1)
+			go func() { qerr <- sq.Start(context.Background()) }()
+			hq := false
+			select {
+			case <-finished:
+			case <-time.After(20 * time.Second):
+				hq = true
+			}
+			sq2 := ""
+			select {
+			case e := <-qerr:
+				if e != nil {
+					sq2 = e.Error()
+				}
+			case <-time.After(3 * time.Second):
+				sq2 = "stub start did not return"
+			}
+			ev("other.end", "hung", hq, "text", sq2)
+			sq.Stop()
+		}
+	}
 	if !hung {
 		// a second session of the same stub with another, small state: nothing of the first session may be left
 		st.Stop()
 		mu.Lock()
-		again = true
+		phase = "again"
 		mu.Unlock()
 		pods = []*api.PodSandbox{{Id: "again-pod0", Name: "p"}, {Id: "again-pod1", Name: "p"}}
 		ctrs = []*api.Container{{Id: "again-ctr0", Name: "c"}, {Id: "again-ctr1", Name: "c"}, {Id: "again-ctr2", Name: "c"}}
